@@ -117,6 +117,7 @@ type StateProg struct {
 	GoNames []string // Go field name per schema field
 	Init    []byte
 	Steps   []ProgStep
+	SetterSweep        bool // start with every typed setter once (view 0), each with the aliasing probe
 	EmptyBalancesFirst bool // the second step is SetBalances of the empty list (boundary value of a whole-list setter)
 	Getters map[string]int // getter -> times compared
 	Setters map[string]int
@@ -296,6 +297,42 @@ func le64(v uint64) []byte {
 	return b
 }
 
+// typedSet: the typed setter Set<Field> of field k on view vi with a random in-limit value, followed by the aliasing
+// probe (cache every root, then overwrite the caller's own argument).  ok=false: the field has no such setter.
+func (p *StateProg) typedSet(vi, k int) (desc string, coq string, err error, ok bool) {
+	r := p.En.R
+	st, sh := p.Typed[vi], p.Shadows[vi]
+	name := p.GoNames[k]
+	m := reflect.ValueOf(st).MethodByName("Set" + name)
+	if !m.IsValid() || m.Type().NumIn() != 1 {
+		return "", "", nil, false
+	}
+	nv := p.En.newVal(sh.Elems[k].T)
+	if r.Chance(30) {
+		// boundary: the all-empty / all-zero value of the field (e.g. SetBalances of an empty list)
+		g := NewGen(r.Fork(), 0)
+		g.Mode = 1
+		nv = g.Tree(sh.Elems[k].T)
+	}
+	arg, aerr := p.argOf(m.Type().In(0), k, nv.Bytes())
+	if aerr != nil {
+		return "", "", fmt.Errorf("Set%s: cannot build argument: %v", name, aerr), true
+	}
+	out := m.Call([]reflect.Value{arg})
+	if len(out) == 1 && !out[0].IsNil() {
+		return "", "", fmt.Errorf("Set%s: %v", name, out[0].Interface()), true
+	}
+	sh.Elems[k] = nv
+	p.Setters["Set"+name]++
+	coq = fmt.Sprintf("TSet %d %d \"%s\"", vi, k, hex.EncodeToString(nv.Bytes()))
+	_ = st.HashTreeRoot(tree.GetHashFn())
+	if cells := Scramble(arg, 0); cells > 0 {
+		p.Setters["alias:Set"+name]++
+		return fmt.Sprintf("v%d.Set%s; then the caller overwrites its argument (%d cells)", vi, name, cells), coq, nil, true
+	}
+	return fmt.Sprintf("v%d.Set%s", vi, name), coq, nil, true
+}
+
 // setWholeFieldEmpty: the typed setter of a list field with the empty list (boundary value), on view 0.
 func (p *StateProg) setWholeFieldEmpty(field string) (desc string, coq string, err error) {
 	k := p.fieldIndex(field)
@@ -336,30 +373,11 @@ func (p *StateProg) Step() (desc string, coq string, err error) {
 	for try := 0; try < 30; try++ {
 		switch r.Intn(16) {
 		case 0, 1, 2, 3, 4: // typed setter of a whole field
-			k := r.Intn(len(sh.Elems))
-			name := p.GoNames[k]
-			m := reflect.ValueOf(st).MethodByName("Set" + name)
-			if !m.IsValid() || m.Type().NumIn() != 1 {
+			d, c, e, ok := p.typedSet(vi, r.Intn(len(sh.Elems)))
+			if !ok {
 				continue
 			}
-			nv := p.En.newVal(sh.Elems[k].T)
-			if r.Chance(30) {
-				// boundary: the all-empty / all-zero value of the field (e.g. SetBalances of an empty list)
-				g := NewGen(r.Fork(), 0)
-				g.Mode = 1
-				nv = g.Tree(sh.Elems[k].T)
-			}
-			arg, aerr := p.argOf(m.Type().In(0), k, nv.Bytes())
-			if aerr != nil {
-				return "", "", fmt.Errorf("Set%s: cannot build argument: %v", name, aerr)
-			}
-			out := m.Call([]reflect.Value{arg})
-			if len(out) == 1 && !out[0].IsNil() {
-				return "", "", fmt.Errorf("Set%s: %v", name, out[0].Interface())
-			}
-			sh.Elems[k] = nv
-			p.Setters["Set"+name]++
-			return set(k, fmt.Sprintf("v%d.Set%s", vi, name))
+			return d, c, e
 		case 5: // balances sub-view
 			k := fi("balances")
 			bals, e := st.Balances()
@@ -664,6 +682,34 @@ func (p *StateProg) Observe() (obs []ViewObs, ok bool, notes []string) {
 				ok = false
 				notes = append(notes, fmt.Sprintf("v%d.%s returned %x, stored %x", vi, name, b, p.Shadows[vi].Elems[k].Bytes()))
 			}
+			// aliasing probe: what a getter hands out (structs, pointers, slices; not views) belongs to the caller
+			if Scramble(out[0], 0) > 0 {
+				p.Getters["alias:"+name]++
+			}
+		}
+		// the same for Raw(spec): the flattened struct form
+		if m := tv.MethodByName("Raw"); m.IsValid() && m.Type().NumIn() == 1 && m.Type().In(0) == reflect.TypeOf(p.En.P.Spec) {
+			var out []reflect.Value
+			pan, _ := hx.Catch(func() { out = m.Call([]reflect.Value{reflect.ValueOf(p.En.P.Spec)}) })
+			if !pan && len(out) == 2 && out[1].IsNil() {
+				if Scramble(out[0], 0) > 0 {
+					p.Getters["alias:Raw"]++
+				}
+			}
+		}
+		// after the caller overwrote everything it was given: content and root are what they were
+		got2, err2 := viewBytes(cont)
+		if err2 != nil || !bytes.Equal(got2, p.Shadows[vi].Bytes()) {
+			ok = false
+			notes = append(notes, fmt.Sprintf("v%d: overwriting values RETURNED by getters changed the state (%v)", vi, err2))
+		}
+		if p.Typed[vi].HashTreeRoot(h) != o.Root {
+			ok = false
+			notes = append(notes, fmt.Sprintf("v%d: root changed after overwriting values returned by getters", vi))
+		}
+		if fresh, errf := viewFromBytes(p.En.TD, got2); errf == nil && fresh.HashTreeRoot(h) != o.Root {
+			ok = false
+			notes = append(notes, fmt.Sprintf("v%d: cached root differs from the root of a view rebuilt from Serialize()", vi))
 		}
 	}
 	return
@@ -671,11 +717,23 @@ func (p *StateProg) Observe() (obs []ViewObs, ok bool, notes []string) {
 
 // Run a program of n steps; returns the Coq case.
 func (p *StateProg) Run(n int) {
+	// setter sweep: every typed setter once, on the first view, each followed by the aliasing probe
+	var sweep []int
+	if p.SetterSweep {
+		for k, name := range p.GoNames {
+			if m := reflect.ValueOf(p.Typed[0]).MethodByName("Set" + name); m.IsValid() && m.Type().NumIn() == 1 {
+				sweep = append(sweep, k)
+			}
+		}
+	}
+	n += len(sweep)
 	for i := 0; i < n; i++ {
 		var desc, coq string
 		var err error
 		pan, pv := hx.Catch(func() {
-			if i == 1 && p.EmptyBalancesFirst {
+			if i < len(sweep) {
+				desc, coq, err, _ = p.typedSet(0, sweep[i])
+			} else if i == len(sweep)+1 && p.EmptyBalancesFirst {
 				desc, coq, err = p.setWholeFieldEmpty("balances")
 			} else {
 				desc, coq, err = p.Step()
